@@ -14,13 +14,22 @@
                               equality over the names "1" and "1.0";  C01_faithful_refuted is the witness and
                               C01_refuted_raises shows that this action raises at its first grounding - the outcome
                               the property allows ("at the latest when the affected action is first grounded").
+     C01_rejects_*            nothing is skipped: whatever stands where a condition / an effect item / a numeric term / a
+                              name of a typed list is expected and is not a form the library represents makes the
+                              parser fail (imply, exists, when-in-condition, positive literals over undeclared
+                              predicates, scale-up/-down, nested and, n-ary arithmetic, either, repeated arguments);
+     C01_first_use_*          what is stored although it cannot be evaluated (a negative literal / an effect over an
+                              undeclared predicate, a literal of the wrong arity, an (in)equality over a name that is
+                              not a parameter such as '(= 1 1.0)') makes Operator.ground() fail for every call.
+     C01_supported_accepted   every domain of the supported fragment G (Spec/Fragment.v, a decidable predicate on the
+                              token tree written with the Spec readers only) is accepted by the parser.
    The deviations found while building this (D45 trailing untyped constants dropped, D46/D07 repeated argument or
    wrong arity silently altered, D47 '(f)' read as the declaration) are repaired in /repo; their witnesses are the
    regression examples at the end. *)
 From Coq Require Import List Ascii String Bool Arith PrimFloat Permutation.
 From Verif Require Import Base.Result Base.Str Base.Sexp Base.PyDict Model.Types Model.Domain Model.Exec
   Spec.Pddl Spec.Grammar Spec.Faithful Proofs.C01_Defs Proofs.C01_Typed Proofs.C01_Vocab Proofs.C01_Pre
-  Proofs.C01_Eff Proofs.C01_Action Proofs.C01_Domain Proofs.C01_Witness.
+  Spec.Fragment Proofs.C01_Eff Proofs.C01_Action Proofs.C01_Domain Proofs.C01_Witness Proofs.C01_Rejects Proofs.C01_Accept.
 Import ListNotations.
 Open Scope string_scope.
 Open Scope list_scope.
@@ -107,6 +116,77 @@ Theorem C01_effects : forall num tt consts preds funcs,
   exists es', denote_eff_parts (ea_disc ef) (ea_num ef) (ea_cond ef) (ea_univ ef) = Some es' /\ effs_rel es' es.
 Proof. exact parse_effects_faithful. Qed.
 
+(* ---------- rejected, never skipped ---------- *)
+(* x stands where a condition is expected (a conjunct, a member of a nested and/or, of a forall body): then its head
+   is one the parser knows - and, or, not, =, a comparison, forall, or a DECLARED predicate.  So imply, exists,
+   when ..., and positive literals over undeclared predicates are errors wherever they occur. *)
+Theorem C01_rejects_condition : forall num tt consts preds funcs sg body p x,
+  parse_preconditions num tt consts preds funcs sg (SList body) = Ok p ->
+  cond_position x (conds_of body) ->
+  exists h, head_of x = Ok h /\ cond_head_ok preds h = true.
+Proof. exact parse_preconditions_rejects. Qed.
+
+Theorem C01_rejects_condition_form : forall num tt consts preds funcs sg body h args,
+  cond_head_ok preds h = false ->
+  cond_position (SList (Atom h :: args)) (conds_of body) ->
+  exists k, parse_preconditions num tt consts preds funcs sg (SList body) = Err k.
+Proof. exact precondition_form_rejected. Qed.
+
+(* an effect is (and e1 ... en), every ei headed by a declared predicate, not, forall, when or an assignment:
+   scale-up / scale-down, a nested and, a single-literal body, an undeclared predicate are errors *)
+Theorem C01_rejects_effect : forall num tt consts preds funcs sg e ef,
+  parse_effects num tt consts preds funcs sg e = Ok ef ->
+  exists nodes, e = SList (Atom "and" :: nodes) /\
+                forall x, In x nodes -> exists h, head_of x = Ok h /\ eff_head_ok preds h = true.
+Proof. exact parse_effects_rejects. Qed.
+
+(* n-ary arithmetic: every arithmetic operator of an accepted numeric term has exactly two operands *)
+Theorem C01_rejects_nary : forall num funcs fuel e t,
+  construct num funcs fuel e = Ok t -> arith_binary e = true.
+Proof. exact construct_binary. Qed.
+
+(* either: every token of an accepted typed list is a name *)
+Theorem C01_rejects_either : forall tt toks sg,
+  parse_signature tt toks = Ok sg -> forall x, In x toks -> exists s, x = Atom s.
+Proof. exact parse_signature_names. Qed.
+
+(* a repeated argument: the arguments of an accepted literal are pairwise different names *)
+Theorem C01_rejects_repeated : forall sg consts pos n args l,
+  parse_untyped_predicate sg consts pos (SList (Atom n :: args)) = Ok l ->
+  atom_names args = Some (l_args l) /\ has_dup (l_args l) = false.
+Proof. exact literal_no_repeat. Qed.
+
+(* ---------- stored but unusable: the first grounding raises ---------- *)
+Theorem C01_first_use_precondition : forall dom a op os eqs neqs pos p args,
+  ma_pre a = MPre op os eqs neqs -> In (MLit pos p args) os -> bad_literal dom p args ->
+  forall call, exists k, ground_action dom a call = Err k.
+Proof. exact ground_action_bad_precondition. Qed.
+
+Theorem C01_first_use_effect : forall dom a l,
+  In l (ma_disc a) -> bad_literal dom (l_name l) (l_args l) ->
+  forall call, exists k, ground_action dom a call = Err k.
+Proof. exact ground_action_bad_effect. Qed.
+
+Theorem C01_first_use_when_result : forall dom a ce l,
+  In ce (ma_cond a) -> In l (ce_disc ce) -> bad_literal dom (l_name l) (l_args l) ->
+  forall call, exists k, ground_action dom a call = Err k.
+Proof. exact ground_action_bad_when_result. Qed.
+
+Theorem C01_first_use_equality : forall dom a op os eqs neqs x y,
+  ma_pre a = MPre op os eqs neqs -> In (x, y) (eqs ++ neqs) ->
+  ~ In x (dkeys (ma_sig a)) \/ ~ In y (dkeys (ma_sig a)) ->
+  forall call, exists k, ground_action dom a call = Err k.
+Proof. exact ground_action_unbound_equality. Qed.
+
+(* ---------- the supported fragment is accepted ---------- *)
+Theorem C01_supported_accepted : forall num e, G num e = true -> exists m, parse_domain num e = Ok m.
+Proof. exact supported_accepted. Qed.
+
+(* G is inhabited by the non-trivial example below (types child-before-parent, a parent-only type, constants, grouped
+   and untyped parameters, or / not / = / forall / comparisons, add / del / increase / when / forall-when) *)
+Theorem C01_example_in_G : G num_tab example_sexp = true.
+Proof. exact example_in_G. Qed.
+
 (* ---------- the hypotheses are satisfiable by a non-trivial text ---------- *)
 Theorem C01_example :
   is_ok (parse_domain num_tab example_sexp) = true /\
@@ -143,6 +223,18 @@ Print Assumptions C01_faithful_refuted.
 Print Assumptions C01_refuted_raises.
 Print Assumptions C01_precondition.
 Print Assumptions C01_effects.
+Print Assumptions C01_rejects_condition.
+Print Assumptions C01_rejects_condition_form.
+Print Assumptions C01_rejects_effect.
+Print Assumptions C01_rejects_nary.
+Print Assumptions C01_rejects_either.
+Print Assumptions C01_rejects_repeated.
+Print Assumptions C01_first_use_precondition.
+Print Assumptions C01_first_use_effect.
+Print Assumptions C01_first_use_when_result.
+Print Assumptions C01_first_use_equality.
+Print Assumptions C01_supported_accepted.
+Print Assumptions C01_example_in_G.
 Print Assumptions C01_example.
 Print Assumptions C01_D45_repaired.
 Print Assumptions C01_D46_repeated_rejected.
